@@ -63,13 +63,14 @@ class Neo4jCBMGraph(Neo4jPropertyGraph, ABCCBMPropertyGraph):
 
         super().__init__(graph_id=graph_id, importer=importer, logger=logger)
 
-    def _update_node_delegations(self, *, node_id: str, adm: ABCPropertyGraph) -> None:
+    def _update_node_delegations(self, *, node_id: str, adm: ABCPropertyGraph, check_only: bool = False) -> None:
         """
         Update the CBM node by-ADM-id delegation dictionary (it is assumed to exist already
         on common nodes) from corresponding ADM node.
         Must be invoked before ADM is merged into CBM.
         :param node_id:
         :param adm:
+        :param check_only: only check that CBM and ADM do not both carry delegations, write nothing
         :return:
         """
         _, cbm_node_props = self.get_node_properties(node_id=node_id)
@@ -104,7 +105,7 @@ class Neo4jCBMGraph(Neo4jPropertyGraph, ABCCBMPropertyGraph):
             # take the non-None dictionary and write back
             new_delegations = cbm_delegations if cbm_delegations is not None else adm_delegations
             cbm_node_props[delegation_prop_name] = new_delegations.to_json()
-        if props_modified:
+        if props_modified and not check_only:
             # write back
             self.update_node_properties(node_id=node_id, props=cbm_node_props)
 
@@ -146,6 +147,15 @@ class Neo4jCBMGraph(Neo4jPropertyGraph, ABCCBMPropertyGraph):
 
         # locate nodes with matching IDs
         common_node_ids = self.find_matching_nodes(other_graph=temp_adm_graph)
+
+        # a merge that has to be refused (both CBM and ADM speak for a resource) must leave the CBM
+        # as it was: check all common nodes before any of them is merged and drop the temporary graph
+        try:
+            for node_id in common_node_ids:
+                self._update_node_delegations(node_id=node_id, adm=temp_adm_graph, check_only=True)
+        except PropertyGraphQueryException:
+            temp_adm_graph.delete_graph()
+            raise
 
         # Merging CBM properties with ADM (on merged nodes):
         # edited after the fact.
